@@ -7,6 +7,11 @@
         `normsq <N3D|SN3D|FuMa> <n> <|m|>`    -> `<num>/<den>` | `raise`   (exact square, model formula)
         `acn <n> <m>` -> `<int>` ;  `fromacn <k>` -> `<n> <m>`
         `route <C> <lfe bits e.g. 000100> | row-major decoder rows (k*C)` -> `ok …` ((#bits)*C) | `shape-error`
+        `designpack <L> <C> <P> <normMeanPower> <maxRE> <scale> <mute> <objGain> <N3D|SN3D|FuMa>
+          | G (L*P) | az (P, radians) | el (P, radians) | gains (C) | orders (C nats) | degrees (C ints) | coef`
+        -> `ok d00 …` | `raise`   (the whole of HOADecoderDesign.design from the pack's metadata: norm_*, sph_harm inside)
+        `sph <N3D|SN3D|FuMa> <n> <m> <az> <el>` -> `<float>` | `raise`      (hoa.sph_harm, one channel, one direction)
+        `frame <C> <lfe bits> | decoder rows (k*C) | x (C)` -> `ok o0 o1 …` (#bits) | `shape-error`   (one rendered frame)
    `bad-op` for a malformed line. -/
 import Earverif.Model.Hoa
 import Earverif.Driver.Util
@@ -88,6 +93,44 @@ def answerDesign (hd : List String) (parts : List String) : Option String := do
     some ("ok " ++ showFloats (D.toList.flatMap Vector.toList))
   | _, _ => none
 
+def parseInts? (s : String) : Option (Array Int) := (words s).toArray.mapM String.toInt?
+
+def answerDesignPack (hd : List String) (parts : List String) : Option String := do
+  match hd, parts with
+  | [l, c, p, nmp, mx, sc, mu, og, cv], [g, az, el, ga, od, dg, cf] =>
+    let L ← l.toNat?; let C ← c.toNat?; let P ← p.toNat?
+    let o : Opts := ⟨← parseBool nmp, ← parseBool mx, ← parseScale sc⟩
+    let mute ← parseBool mu
+    let og ← parseFloat? og
+    let cv ← convIdx cv
+    let G ← parseFloats? g; let az ← parseFloats? az; let el ← parseFloats? el
+    let ga ← parseFloats? ga
+    let od ← parseNats? od; let dg ← parseInts? dg; let cf ← parseFloats? cf
+    if G.size != L * P || az.size != P || el.size != P || ga.size != C || od.size != C || dg.size != C then none
+    if o.maxRE && od.any (fun k => k ≥ cf.size) then none
+    let ord : Vector Nat C := Vector.ofFn fun i => od[i.1]!
+    let deg : Vector Int C := Vector.ofFn fun i => dg[i.1]!
+    match designPack o (matOfArray L P G) (vecOfArray P az) (vecOfArray P el) cv ord deg (fun k => cf[k]!)
+        (vecOfArray C ga) og mute with
+    | some D => some ("ok " ++ showFloats (D.toList.flatMap Vector.toList))
+    | none => some "raise"
+  | _, _ => none
+
+def answerFrame (hd : List String) (parts : List String) : Option String := do
+  match hd, parts with
+  | [c, bits], [rows, x] =>
+    let C ← c.toNat?
+    let lfe ← bits.toList.mapM fun ch => parseBool ch.toString
+    let a ← parseFloats? rows
+    let xs ← parseFloats? x
+    if C == 0 || a.size % C != 0 || xs.size != C then none
+    let k := a.size / C
+    let rs : List (Vector Float C) := (List.range k).map fun i => Vector.ofFn fun j => a[i * C + j.1]!
+    match renderFrame lfe rs (vecOfArray C xs) with
+    | some out => some ("ok " ++ showFloats out)
+    | none => some "shape-error"
+  | _, _ => none
+
 def answerRoute (hd : List String) (parts : List String) : Option String := do
   match hd, parts with
   | [c, bits], [rows] =>
@@ -133,6 +176,15 @@ def answer (line : String) : String :=
         let (n, m) := fromAcn (← k.toNat?)
         some s!"{n} {m}"
       | "route" :: rest => answerRoute rest parts
+      | "frame" :: rest => answerFrame rest parts
+      | "designpack" :: rest => answerDesignPack rest parts
+      | ["sph", cv, n, m, az, el] => do
+        let cv ← convIdx cv; let n ← n.toNat?; let m ← m.toInt?
+        let az ← parseFloat? az; let el ← parseFloat? el
+        if !parts.isEmpty then none
+        match (normBy cv n m.natAbs : Option Float) with
+        | some nf => some (showFloat (sphHarm nf n m az el))
+        | none => some "raise"
       | _ => none
     r.getD "bad-op"
 
